@@ -14,6 +14,7 @@ import (
 
 	"github.com/gdamore/tcell/v2"
 	"github.com/gdamore/tcell/v2/terminfo"
+	"github.com/gdamore/tcell/v2/views"
 	xenc "golang.org/x/text/encoding"
 
 	"verif/harness/common"
@@ -900,6 +901,17 @@ func lifecycle(entries []common.Entry) {
 				s.HideCursor()
 				s.Sync()
 				step("Fill+Sync")
+				// the library's own text widget: control characters in the text are primary
+				// content like any other (shown as blanks), never a combining list written raw
+				{
+					vp := views.NewViewPort(s, 0, 0, 4, 1)
+					txt := views.NewText()
+					txt.SetView(vp)
+					txt.SetText("Q\aQ\x0e\x7f\u009bQ\r")
+					txt.Draw()
+					s.Show()
+					step("views.Text with control characters")
+				}
 				s.SetSize(3, 2)
 				s.Show()
 				step("SetSize")
